@@ -156,7 +156,20 @@ func transport(reg *payloads.RegisterRequestPayload, ver kmip.ProtocolVersion, e
 	resp := kmip.ResponseMessage{Header: kmip.ResponseHeader{ProtocolVersion: ver, BatchCount: 1},
 		BatchItem: []kmip.ResponseBatchItem{{Operation: kmip.OperationGet, ResponsePayload: &payloads.GetResponsePayload{ObjectType: got.ObjectType, UniqueIdentifier: "id-1", Object: got.Object}}}}
 	var resp2 kmip.ResponseMessage
-	if err := safely(func() error { return libUnmarshal(enc, append([]byte{}, libMarshal(enc, &resp)...), &resp2) }); err != nil {
+	if enc == "binary" {
+		// as on a connection: the response is received from a TTLV stream, and the next message on the same stream
+		// (other bytes of the same size) arrives before the caller gets round to extracting the key
+		b1 := ttlv.MarshalTTLV(&resp)
+		b2 := sizedMessage(len(b1), 0xA5)
+		st := ttlv.NewStream(&planReader{data: append(append([]byte{}, b1...), b2...), plan: []int{len(b1)/2 + 1}}, 1<<20)
+		if err := safely(func() error { return st.Recv(&resp2) }); err != nil {
+			return nil, fmt.Errorf("get response does not survive the binary stream: %w", err)
+		}
+		var next ttlv.Value
+		if err := safely(func() error { return st.Recv(&next) }); err != nil {
+			return nil, fmt.Errorf("the message following the get response is not received: %w", err)
+		}
+	} else if err := safely(func() error { return libUnmarshal(enc, append([]byte{}, libMarshal(enc, &resp)...), &resp2) }); err != nil {
 		return nil, fmt.Errorf("get response does not survive %s: %w", enc, err)
 	}
 	if len(resp2.BatchItem) != 1 {
@@ -177,7 +190,7 @@ type privEqualer interface {
 func TestC14Keys(t *testing.T) {
 	const name = "TestC14Keys"
 	rec := evid.New("C14", name, "keys built inside the generator from rapid-drawn bytes: RSA from two generated primes (modulus 1024..2064 bits incl. uneven prime sizes, e in {3,17,257,65537}), ECDSA scalars on P-224/256/384/521 (tiny, near n, leading zero bytes/top bit, random) "+
-		"x every register format (PKCS#1, PKCS#8, SEC1, X.509, Transparent) x private/public half x versions 1.0..1.4 x {binary, XML, JSON}; pipeline: client.Register().WithKeyFormat(f).<builder>(key) -> request message -> encode/decode -> Get response -> encode/decode -> accessors; "+
+		"x every register format (PKCS#1, PKCS#8, SEC1, X.509, Transparent) x private/public half x versions 1.0..1.4 x {binary, XML, JSON}; pipeline: client.Register().WithKeyFormat(f).<builder>(key) -> request message -> encode/decode -> Get response -> encode/decode (binary: received from a TTLV stream on which another message follows before the key is extracted) -> accessors; "+
 		"oracle: key.Equal(original) for every accessor incl. the PEM ones; non-trivial = transparent format or XML/JSON; distinct by (key, format, version, encoding, half)").Attach(t)
 	rapid.Check(t, func(rt *rapid.T) {
 		ver := rapid.SampledFrom(gen.Versions).Draw(rt, "version")
